@@ -216,11 +216,21 @@ def _param_src(kind, params):
     return ', '.join(out), names
 
 
+_DOW = [0]
+
+
+def _good_dow():
+    '''a well-typed day of the week: alternately Monday (0 -- the week is zero
+    based, dawgie.pl.schedule._delay uses isoweekday() - 1) and Wednesday'''
+    _DOW[0] += 1
+    return '0' if _DOW[0] % 2 else '2'
+
+
 def _moment_src(m):
     f = {
         'day': {'none': 'None', 'good': 'datetime.date(2030, 1, 2)', 'bad': "'2030-01-02'"},
         'dom': {'none': 'None', 'good': '12', 'bad': "'x'"},
-        'dow': {'none': 'None', 'good': '2', 'bad': "'x'"},
+        'dow': {'none': 'None', 'good': _good_dow(), 'bad': "'x'"},
         'time': {'none': 'None', 'good': 'datetime.time(1, 0, 0)', 'bad': "'01:00'"},
     }
     return 'dawgie.MOMENT(%r, %s, %s, %s, %s)' % (
@@ -315,7 +325,7 @@ def _events_body(eng, p, ef):
             kw = []
             if m['boot'] is not None:
                 kw.append('boot=%r' % m['boot'])
-            for k, v in (('day', 'datetime.date(2030, 1, 2)'), ('dom', '12'), ('dow', '2'),
+            for k, v in (('day', 'datetime.date(2030, 1, 2)'), ('dom', '12'), ('dow', _good_dow()),
                          ('time', 'datetime.time(1, 0, 0)')):
                 if m[k] == 'good':
                     kw.append('%s=%s' % (k, v))
